@@ -3,6 +3,7 @@
    it is the generated translation of krigesum.pyx (tie A).  Core Lean only. -/
 import GSV.Proto
 import GSV.Gen.Krigesum
+import GSV.Model.Norm
 open Lean GSV GSV.Proto GSV.Transc
 namespace GSV.Model.Krige
 
@@ -52,6 +53,16 @@ def assembleRHS (L : Layout) (onlyMean : Bool) (c : Nat → Nat → α) (f e : N
 def krigeCond (L : Layout) (valn mean : Nat → α) : Nat → α :=
   fun i => if i < L.n then valn i - mean i else ((0:Nat):α)
 
+/-- `_krige_cond` from its raw ingredients: detrend the data, normalise, remove the mean, zero-pad
+    (`val = normalizer.normalize(cond_val - cond_trend); val -= cond_mean; np.pad(val, …)`).
+    `norm` is the normaliser's map (C18); the ORDER of the three steps is what this definition fixes. -/
+def prepCond (L : Layout) (norm : α → α) (val trend mean : Nat → α) : Nat → α :=
+  krigeCond L (fun i => norm (val i - trend i)) mean
+
+/-- `Field.post_field(process=True)` = `apply_mean_norm_trend` on one cell of the raw kriging field:
+    `field += mean; field = denormalize(field); field += trend` -/
+def postCell (denorm : α → α) (mean trend raw : α) : α := denorm (raw + mean) + trend
+
 /-- `np.maximum(sill - krige_var, 0)` -/
 def clipVar (sill q : α) : α := if sill - q < ((0:Nat):α) then ((0:Nat):α) else sill - q
 
@@ -82,7 +93,113 @@ def krigeCallField (sched : Sched) (L : Layout) (M : Nat → Nat → α) (rhs : 
 def getMeanUnb (L : Layout) (M : Nat → Nat → α) (cond : Nat → α) : α :=
   forRange 0 L.size ((0:Nat):α) fun i acc => acc + cond i * M i L.n
 
+/-! ### the refresh protocol of one `Krige` object (`set_condition` in all its argument forms)
+
+Values are abstract version identifiers.  A call combines: the stored inverse matrix (built by the last
+`set_condition` from the model, positions, measurement errors and external drift of *that* moment), the
+stored isometrised positions `_krige_pos` (same moment), the right-hand sides / sill of the model *at call
+time*, and the conditions prepared at call time from the current values and mean/normaliser/trend. -/
+
+/-- what the result of a call depends on -/
+structure HTok where
+  matModel : Nat
+  matPos : Nat
+  matErr : Nat
+  matExt : Nat
+  kpModel : Nat
+  kpPos : Nat
+  rhsModel : Nat
+  val : Nat
+  mnt : Nat
+deriving DecidableEq, Repr, Inhabited
+
+structure HState where
+  model : Nat     -- current model parameters
+  pos : Nat       -- current `cond_pos`
+  val : Nat       -- current `cond_val`
+  err : Nat       -- current `cond_err` setting (the value "nugget" is read from the model when the matrix is built)
+  ext : Nat       -- current `cond_ext_drift` (0 = none)
+  mnt : Nat       -- current mean / normaliser / trend
+  matModel : Nat
+  matPos : Nat
+  matErr : Nat
+  matExt : Nat
+  kpModel : Nat
+  kpPos : Nat
+deriving DecidableEq, Repr, Inhabited
+
+inductive HOp where
+  | editModel (v : Nat)                         -- in-place parameter change or re-assignment of `.model`
+  | editMNT (v : Nat)                           -- re-assignment of `.mean` / `.normalizer` / `.trend`
+  | setCond (pos val ext err : Option Nat)      -- `set_condition(cond_pos, cond_val, ext_drift, cond_err)`, `none` = not passed
+  | call
+deriving DecidableEq, Repr, Inhabited
+
+/-- a freshly constructed object -/
+def hinit (model pos val err ext mnt : Nat) : HState :=
+  { model, pos, val, err, ext, mnt, matModel := model, matPos := pos, matErr := err, matExt := ext,
+    kpModel := model, kpPos := pos }
+
+/-- what `kr(...)` combines now -/
+def callTok (s : HState) : HTok :=
+  { matModel := s.matModel, matPos := s.matPos, matErr := s.matErr, matExt := s.matExt,
+    kpModel := s.kpModel, kpPos := s.kpPos, rhsModel := s.model, val := s.val, mnt := s.mnt }
+
+/-- what a freshly constructed object with the current model and conditions combines -/
+def freshTok (s : HState) : HTok := callTok (hinit s.model s.pos s.val s.err s.ext s.mnt)
+
+/-- `set_condition`: an external drift that is not passed is kept only when no new positions are passed;
+    everything else that is not passed is kept; the matrix and `_krige_pos` are ALWAYS rebuilt -/
+def setCond (s : HState) (pos val ext err : Option Nat) : HState :=
+  let ext' := match ext, pos with
+    | some e, _ => e
+    | none, none => s.ext
+    | none, some _ => 0
+  hinit s.model (pos.getD s.pos) (val.getD s.val) (err.getD s.err) ext' s.mnt
+
+def hstep (s : HState) : HOp → HState × Option HTok
+  | .editModel v => ({ s with model := v }, none)
+  | .editMNT v => ({ s with mnt := v }, none)
+  | .setCond p v e r => (setCond s p v e r, none)
+  | .call => (s, some (callTok s))
+
+/-- the stored matrix and positions belong to the current model and conditions -/
+def hsynced (s : HState) : Prop :=
+  s.matModel = s.model ∧ s.matPos = s.pos ∧ s.matErr = s.err ∧ s.matExt = s.ext ∧ s.kpModel = s.model ∧ s.kpPos = s.pos
+
+instance (s : HState) : Decidable (hsynced s) := by unfold hsynced; infer_instance
+
+/-- run a history; every call reports (token used, token of a fresh object at that moment) -/
+def hrun (s : HState) : List HOp → List (HTok × HTok)
+  | [] => []
+  | op :: ops =>
+    let r := hstep s op
+    match r.2 with
+    | some t => (t, freshTok s) :: hrun r.1 ops
+    | none => hrun r.1 ops
+
 /-! ### driver ops (Float) -/
+
+def optNat (j : Json) (k : String) : Option Nat :=
+  match j.getObjVal? k with
+  | .ok (Json.num n) => some n.mantissa.toNat
+  | _ => none
+
+def parseHOp (j : Json) : Except String HOp := do
+  match ← getStr j "k" with
+  | "model" => return .editModel (← getNat j "v")
+  | "mnt" => return .editMNT (← getNat j "v")
+  | "set_condition" => return .setCond (optNat j "pos") (optNat j "val") (optNat j "ext") (optNat j "err")
+  | "call" => return .call
+  | k => throw s!"unknown krige history op {k}"
+
+def htokJson (t : HTok) : Json :=
+  Json.arr ((#[t.matModel, t.matPos, t.matErr, t.matExt, t.kpModel, t.kpPos, t.rhsModel, t.val, t.mnt] : Array Nat).map
+    fun n => Json.num (JsonNumber.fromNat n))
+
+/-- the normaliser maps with the masking of `Normalizer.normalize/denormalize` (NaN outside the range) -/
+def normF (k : Norm.Kind) (p : Norm.Par Float) (x : Float) : Float := Norm.optF (Norm.normalize k p x)
+def denormF (k : Norm.Kind) (p : Norm.Par Float) (y : Float) : Float := Norm.optF (Norm.denormalize k p y)
 
 def getLayout (j : Json) : Except String Layout := do
   return { n := ← getNat j "n", unb := ← getBool j "unb", nf := ← getNat j "nf", ne := ← getNat j "ne" }
@@ -109,6 +226,32 @@ def ops (op : String) (j : Json) : Option (Except String Json) :=
       let (f, v) := krigeCall (id : Sched) L (ofList2 M L.size) (ofList2 rhs pnt) cond sill pnt cs
       let f2 := krigeCallField (id : Sched) L (ofList2 M L.size) (ofList2 rhs pnt) cond pnt cs
       return Json.arr #[fl (tab f pnt), fl (tab v pnt), fl (tab f2 pnt), fl (tab cond L.size)])
+  | "krige_prep" => some (do
+      -- `_krige_cond` from cond_val, trend(cond_pos), mean(cond_pos) and the normaliser (model of C18)
+      let L ← getLayout j
+      let (k, p) ← Norm.getPar j
+      let val ← getFloats j "val"; let trend ← getFloats j "trend"; let mean ← getFloats j "mean"
+      return fl (tab (prepCond L (normF k p) (ofList val) (ofList trend) (ofList mean)) L.size))
+  | "krige_post" => some (do
+      -- post-processing of a raw kriging field: trend + denormalize(mean + raw), per target
+      let (k, p) ← Norm.getPar j
+      let raw ← getFloats j "raw"; let trend ← getFloats j "trend"; let mean ← getFloats j "mean"
+      if mean.size != raw.size || trend.size != raw.size then throw "krige_post: sizes" else
+      return fl ((List.range raw.size).map fun i => postCell (denormF k p) mean[i]! trend[i]! raw[i]!))
+  | "krige_history" => some (do
+      let s0 := hinit (← getNat j "model") (← getNat j "pos") (← getNat j "val") (← getNat j "err") (← getNat j "ext") (← getNat j "mnt")
+      let arr ← (← j.getObjVal? "ops").getArr?
+      let opl ← arr.toList.mapM parseHOp
+      let mut s := s0
+      let mut out : Array Json := #[]
+      for o in opl do
+        let (s', r) := hstep s o
+        match r with
+        | some t => out := out.push (Json.mkObj [("tok", htokJson t), ("fresh", htokJson (freshTok s)),
+            ("eq_fresh", Json.bool (decide (t = freshTok s))), ("synced", Json.bool (decide (hsynced s)))])
+        | none => pure ()
+        s := s'
+      return Json.arr out)
   | "krige_mean" => some (do
       let L ← getLayout j
       let M ← getFloats j "M"; let valn ← getFloats j "valn"; let mean ← getFloats j "mean"
